@@ -381,8 +381,8 @@ class C16(Property):
             yield {'k': 'r', 'text': t}
         for c in self.small_texts():
             yield c
-        n_live = 3000 if self.thorough else 400
-        n_rand = 200000 if self.thorough else 12000
+        n_live = 4000 if self.thorough else 1000
+        n_rand = 300000 if self.thorough else 40000
         live_every = max(1, n_rand // n_live)
         for i in range(n_rand):
             c = self.random_text_case()
@@ -613,10 +613,11 @@ class C16(Property):
                     buf = io.StringIO()
                     tbutils.print_exception(et, ev, tb, file=buf)
                     obs['print'] = buf.getvalue()
-                    pe = tbutils.ParsedException.from_string(obs['std_full'])
-                    obs['parsed'] = {'frames': [[f.get('filepath'), f.get('lineno'), f.get('funcname'), f.get('source_line')]
-                                                for f in pe.frames], 'type': pe.exc_type, 'msg': pe.exc_msg,
-                                     'str': pe.to_string()}
+                    for key, text in (('parsed', obs['std_full']), ('parsed_plain', obs['std_plain'])):
+                        pe = tbutils.ParsedException.from_string(text)
+                        obs[key] = {'frames': [[f.get('filepath'), f.get('lineno'), f.get('funcname'),
+                                                f.get('source_line')] for f in pe.frames],
+                                    'type': pe.exc_type, 'msg': pe.exc_msg, 'str': pe.to_string()}
             except CaseTimeout:
                 obs['exc'] = 'CaseTimeout'
             except Exception as e:
@@ -773,13 +774,18 @@ class C16(Property):
             return Failure('format', 'print_exception wrote %r, interpreter = %r' % (obs['print'], std))
         # the interpreter's own text through the parser (first clause on real texts)
         p = obs['parsed']
-        want = [[a, str(b), c, d.strip()] for a, b, c, d in obs['std_frames']]
-        if [[f[0], str(f[1]), f[2], f[3]] for f in p['frames']] != want or p['type'] != obs['std_type'] or p['msg'] != obs['std_msg']:
+        if not self._parsed_ok(p, obs):
             return Failure('parse_std', 'interpreter text %r parsed as %r' % (obs['std_full'], p))
         if p['str'] + '\n' != std:
             return Failure('parse_std', 'to_string() of the parsed interpreter text = %r, text = %r' % (p['str'], std))
         self._nt = len(sf) >= 2
         return None
+
+    @staticmethod
+    def _parsed_ok(p, obs):
+        want = [[a, str(b), c, d.strip()] for a, b, c, d in obs['std_frames']]
+        return ([[f[0], str(f[1]), f[2], f[3]] for f in p['frames']] == want and p['type'] == obs['std_type']
+                and p['msg'] == obs['std_msg'])
 
     def nontrivial(self, case, obs):
         return getattr(self, '_nt', False)
@@ -830,7 +836,9 @@ class C16(Property):
             # exactly the uncollapsed layout, nothing else differs
             return (obs['ei'] + '\n' == obs['std_plain'] and obs['print'] == obs['std_plain']
                     and (obs['tbi'] == obs['std_tb'] or '  [Previous line repeated ' in obs['std_tb']))
-        return True
+        # the same entries printed one by one (no collapse line) parse and round-trip correctly
+        return (self._parsed_ok(obs['parsed_plain'], obs) and obs['parsed_plain']['str'] + '\n' == obs['std_plain']
+                and not obs['std_msg'].endswith('\n') and not any(c in obs['std_msg'] for c in EXOTIC))
 
     # ------------------------------------------------------------------ shrinking
     def shrink(self, case):
